@@ -150,8 +150,11 @@ def _bool_run(stmts, val, target):
     tests (normalised text -> bool); returns the constant finally assigned to
     ``target`` (dotted text).  Unknown atoms fail closed."""
     result = [None]
+    flags = {}
 
     def ev(t):
+        if isinstance(t, ast.Name) and t.id in flags:
+            return ev(flags[t.id])      # a flag local naming a test
         if isinstance(t, ast.BoolOp):
             vals = [ev(v) for v in t.values]
             return all(vals) if isinstance(t.op, ast.And) else any(vals)
@@ -169,6 +172,21 @@ def _bool_run(stmts, val, target):
                 k2 = norm(t2)
                 if k2 in val:
                     return not val[k2]
+        # one-sided spellings over the options' value ranges: a length
+        # bound is >= 0 and <= sys.maxsize, so `x > 0` is `not x == 0` and
+        # `x < sys.maxsize` is `not x == sys.maxsize`
+        if isinstance(t, ast.Compare) and len(t.ops) == 1:
+            l_, r_ = norm(t.left), norm(t.comparators[0])
+            eqk = f"{l_} == {r_}"
+            if eqk in val and ((isinstance(t.ops[0], ast.Gt) and r_ == "0")
+                               or (isinstance(t.ops[0], ast.Lt)
+                                   and r_ == "sys.maxsize")):
+                return not val[eqk]
+            eqk2 = f"{r_} == {l_}"
+            if eqk2 in val and ((isinstance(t.ops[0], ast.Lt) and l_ == "0")
+                                or (isinstance(t.ops[0], ast.Gt)
+                                    and l_ == "sys.maxsize")):
+                return not val[eqk2]
         raise AnalysisError(f"condition `{k}` is outside the modelled options")
 
     def run(body):
@@ -177,8 +195,14 @@ def _bool_run(stmts, val, target):
                 run(s.body if ev(s.test) else s.orelse)
             elif isinstance(s, ast.Assign):
                 for t in s.targets:
-                    if norm(t) == target and isinstance(s.value, ast.Constant):
-                        result[0] = s.value.value
+                    v = s.value
+                    if isinstance(t, ast.Name) and isinstance(
+                            v, (ast.Compare, ast.BoolOp, ast.UnaryOp)):
+                        flags[t.id] = v
+                    while norm(t) == target and isinstance(v, ast.IfExp):
+                        v = v.body if ev(v.test) else v.orelse
+                    if norm(t) == target and isinstance(v, ast.Constant):
+                        result[0] = v.value
             elif isinstance(s, ast.Expr):
                 continue
             else:
